@@ -96,6 +96,7 @@ func (n *normCtx) sroa(fd *ast.FuncDecl) {
 	allowed := map[*ast.Ident]bool{}
 	whole := map[*ast.AssignStmt]*types.Var{}
 	tuples := map[*ast.AssignStmt][]tuplePos{}
+	blanks := map[*ast.AssignStmt]*types.Var{}
 	ast.Inspect(fd.Body, func(x ast.Node) bool {
 		switch s := x.(type) {
 		case *ast.AssignStmt:
@@ -173,6 +174,18 @@ func (n *normCtx) sroa(fd *ast.FuncDecl) {
 				return true
 			}
 			if s.Tok == token.ASSIGN && len(s.Lhs) == 1 && len(s.Rhs) == 1 {
+				// `_ = v` (written behind every temporary): no use
+				if l, ok := s.Lhs[0].(*ast.Ident); ok && l.Name == "_" {
+					if r, ok := s.Rhs[0].(*ast.Ident); ok {
+						if rv, _ := pk.TypesInfo.Uses[r].(*types.Var); rv != nil {
+							if named, _ := newStruct(rv.Type()); named != nil {
+								allowed[r] = true
+								blanks[s] = rv
+							}
+						}
+					}
+					return true
+				}
 				id, ok := s.Lhs[0].(*ast.Ident)
 				lit, isLit := s.Rhs[0].(*ast.CompositeLit)
 				if ok && isLit {
@@ -254,8 +267,26 @@ func (n *normCtx) sroa(fd *ast.FuncDecl) {
 				return true
 			}
 			vs := gd.Specs[0].(*ast.ValueSpec)
-			if len(vs.Names) != 1 || len(vs.Values) != 0 || vs.Names[0].Name == "_" {
+			if len(vs.Names) != 1 || len(vs.Values) > 1 || vs.Names[0].Name == "_" {
 				return true
+			}
+			// `var v T = T{k: e, ..}` (an argument of a written-out helper)
+			var declLit *ast.CompositeLit
+			if len(vs.Values) == 1 {
+				lit, isLit := vs.Values[0].(*ast.CompositeLit)
+				if !isLit {
+					return true
+				}
+				for _, e := range lit.Elts {
+					kv, isKV := e.(*ast.KeyValueExpr)
+					if !isKV {
+						return true
+					}
+					if _, isId := kv.Key.(*ast.Ident); !isId {
+						return true
+					}
+				}
+				declLit = lit
 			}
 			v, _ := pk.TypesInfo.Defs[vs.Names[0]].(*types.Var)
 			if v == nil {
@@ -268,7 +299,10 @@ func (n *normCtx) sroa(fd *ast.FuncDecl) {
 			if named == nil {
 				return true
 			}
-			cands[v] = &sroaCand{v: v, st: st, named: named, def: s, ok: true}
+			if declLit != nil && !types.Identical(pk.TypesInfo.TypeOf(declLit), v.Type()) {
+				return true
+			}
+			cands[v] = &sroaCand{v: v, st: st, named: named, def: s, ok: true, lit: declLit}
 		}
 		return true
 	})
@@ -552,6 +586,11 @@ func (n *normCtx) sroa(fd *ast.FuncDecl) {
 		}
 		repl[as] = []ast.Stmt{&ast.AssignStmt{Lhs: lhs, TokPos: pos, Tok: token.ASSIGN, Rhs: rhs}}
 	}
+	for as, v := range blanks {
+		if c := cands[v]; c != nil && c.ok && names[v] != nil {
+			repl[as] = []ast.Stmt{}
+		}
+	}
 	for as, tp := range tuples {
 		usable := true
 		for _, p := range tp {
@@ -640,7 +679,7 @@ func (n *normCtx) sroa(fd *ast.FuncDecl) {
 	if len(repl) == 0 {
 		return
 	}
-	astutil.Apply(fd.Body, func(cur *astutil.Cursor) bool {
+	selRepl := func(cur *astutil.Cursor) bool {
 		switch x := cur.Node().(type) {
 		case *ast.SelectorExpr:
 			id, ok := x.X.(*ast.Ident)
@@ -656,7 +695,15 @@ func (n *normCtx) sroa(fd *ast.FuncDecl) {
 			}
 		}
 		return true
-	}, nil)
+	}
+	astutil.Apply(fd.Body, selRepl, nil)
+	// (the initial values moved into the new declarations are operands of
+	// those now)
+	for _, list := range repl {
+		for _, st := range list {
+			astutil.Apply(st, selRepl, nil)
+		}
+	}
 	// the defining statements
 	var fix func(list []ast.Stmt) []ast.Stmt
 	fix = func(list []ast.Stmt) []ast.Stmt {
